@@ -48,6 +48,13 @@ func verifFrameIn() { atomic.AddInt64(&verifFramesIn, 1) }
 // VerifFramesIn returns the number of client frames read from sockets so far (process wide).
 func VerifFramesIn() int64 { return atomic.LoadInt64(&verifFramesIn) }
 
+var verifFramesOut int64
+
+func verifFrameOut() { atomic.AddInt64(&verifFramesOut, 1) }
+
+// VerifFramesOut returns the number of frames handed to client sockets so far (process wide).
+func VerifFramesOut() int64 { return atomic.LoadInt64(&verifFramesOut) }
+
 // VerifCache exposes the cache.
 func (s *Service) VerifCache() *rescache.Cache { return s.cache }
 
